@@ -178,6 +178,7 @@ static int runC17(const std::string& tier, const std::string& scratch, const std
 }
 
 // ---- C09 (ii): typed setters over every (type, dimension vector, data size) ---------------------------------
+static std::string g_setterScratch;
 static int runSetterTable(const std::string& tier, const std::string& out, const std::string& transcript) {
     FILE* tf = transcript.empty() ? nullptr : fopen(transcript.c_str(), "w");
     bool thorough = tier == "thorough"; size_t maxProd = thorough ? 24 : 8; size_t maxLen = thorough ? 7 : 4;
@@ -216,12 +217,13 @@ static int runSetterTable(const std::string& tier, const std::string& out, const
     }
     // the reshape idiom p.set(p.valuesAsX(), newDims): the data argument aliases the parameter's own storage
     for (int type = 0; type < 3; ++type) for (auto& sh : std::vector<std::vector<size_t>>{{6}, {2, 3}, {3, 2}, {1, 6}, {6, 1}, {1, 2, 3}}) {
-        Param p("X"); if (type == 0) p.set(std::vector<int>() = {1, 2, 3, 4, 5, 6}); else if (type == 1) p.set(std::vector<float>() = {1, 2, 3, 4, 5, 6}); else p.set(std::vector<std::string>() = {"a", "bb", "ccc", "d", "ee", "fff"});
+        Param p("X"); if (type == 0) p.set(std::vector<int>() = {1, 2, 3, 4, 5, 6}); else if (type == 1) p.set(std::vector<float>() = {1, 2, 3, 4, 5, 6}); else p.set(std::vector<std::string>() = {"a", "bb", "ccc", "a string that lives on the heap, not in the small buffer", "ee", "fff"});
         PSnap before = snapParam(p); evals++; accepted++;
         Outcome oc = guarded([&] { if (type == 0) p.set(p.valuesAsInt(), sh); else if (type == 1) p.set(p.valuesAsFloat(), sh); else p.set(p.valuesAsString(), sh); });
         PSnap after = snapParam(p); const char* tn = type == 0 ? "int" : type == 1 ? "float" : "string"; std::string cs = std::string(tn) + " reshape through own values to " + shapeText(sh);
         if (tf) { std::string t; dumpParam(t, after); fprintf(tf, "%s -> %s %s\n", cs.c_str(), outcomeName(oc), hashStr(t).hex().c_str()); }
         auto add = [&](const std::string& sig) { auto it = viol.find(sig); if (it == viol.end()) viol[sig] = {sig, cs, 1}; else it->second.count++; };
+        if (!g_setterScratch.empty()) guarded([&] { C3D c; c.parameter("RESHAPED", p); std::string pp = g_setterScratch + "/reshaped.c3d"; freshDestination(pp); c.write(pp); C3D l(pp); });   // what the dimensions announce is read back out of the value store by the writer
         if (oc != OK) add(std::string("reshape_refused/") + tn); else if (after.ints != before.ints || after.floats != before.floats || after.strs != before.strs) add(std::string("reshape_through_own_values_loses_values/") + tn);
     }
     auto jstr = [](const std::string& s) { std::string o = "\""; for (unsigned char ch : s) { if (ch == '"' || ch == '\\') { o += '\\'; o += (char)ch; } else o += (char)ch; } return o + "\""; };
@@ -287,7 +289,7 @@ int main(int argc, char** argv) {
         if (a == "--mode") mode = nxt(); else if (a == "--tier") tier = nxt(); else if (a == "--scratch") scratch = nxt(); else if (a == "--out") out = nxt(); else if (a == "--case") one = nxt(); else if (a == "--workers") workers = atoi(nxt().c_str()); else if (a == "--transcript") transcript = nxt(); else { fprintf(stderr, "unknown arg %s\n", a.c_str()); return 2; } }
     if (scratch.empty()) scratch = "/dev/shm/ezc3d-verif-misc." + std::to_string(getpid()); mkdir(scratch.c_str(), 0755);
     if (mode == "c17") return runC17(tier, scratch, out, one, workers);
-    if (mode == "setters") return runSetterTable(tier, out, transcript);
+    if (mode == "setters") { g_setterScratch = scratch; return runSetterTable(tier, out, transcript); }
     if (mode == "residue") return runResidue(tier, scratch, out, one, workers);
     return 2;
 }
